@@ -19,6 +19,19 @@ fn repl() {
         if l.is_empty() || l.starts_with('#') {
             continue;
         }
+        if let Some(t) = l.strip_prefix(".u ") {
+            if let Some(tb) = sut.db.get_table(t.trim()) {
+                println!("  schema.pk={:?} uniques={:?}", tb.schema.primary_key, tb.schema.unique_constraints);
+                println!("  pk_index={:?}", tb.primary_key_index());
+                println!("  unique_indexes={:?}", tb.unique_indexes());
+                println!("  append_mode={}", tb.is_in_append_mode());
+            }
+            for ix in sut.db.list_indexes() {
+                let d: Vec<_> = sut.db.get_index_data(&ix).map(|d| d.iter().collect()).unwrap_or_default();
+                println!("  index {} {:?} = {:?}", ix, sut.db.get_index(&ix).map(|m| (m.table_name.clone(), m.unique)), d);
+            }
+            continue;
+        }
         let out = sut.exec(l);
         println!("> {}", l);
         match &out {
